@@ -41,7 +41,12 @@ import (
 func init() {
 	log.Root().SetHandler(log.DiscardHandler())
 	stdlog.SetOutput(io.Discard) // autofile warns through the standard logger
-	kernel.Register(&kernel.Rig{
+}
+
+// Describe returns the rig (registered by the composite rigs/c14rig; the
+// package's own tests register it themselves).
+func Describe() *kernel.Rig {
+	return &kernel.Rig{
 		Property: "C14",
 		Name:     "wal",
 		Level:    "fault_enumeration",
@@ -69,7 +74,7 @@ func init() {
 		RunsPerProcess: 60,
 		RunTimeout:     600 * time.Second,
 		Run:            run,
-	})
+	}
 }
 
 // ---------------------------------------------------------------- records
